@@ -31,6 +31,8 @@ impl Processor {
 
                 // Store the batch.
                 store.write(digest.to_vec(), batch).await;
+                #[cfg(hotstuff_verif)]
+                network::simnet::emit(format!("\"ev\":\"BatchStored\",\"digest\":\"{}\"", network::simnet::hex(&digest.0)));
 
                 tx_digest.send(digest).await.expect("Failed to send digest");
             }
